@@ -6,6 +6,11 @@
 //	      one char per pair into OUT:  M (true,nil)  N (false,nil)  B (err != nil)  P panic  X (true, err)
 //	c17 filter AP MINP MAXP AN MAXN OUT
 //	      per pattern: NewSet(all names...).Filter(pattern); one char per (pattern, name): M member, N not
+//	c17 sweep SHARD NSHARDS IN OUT
+//	      class-shaped patterns  [x] [xy] [xyz]  [^x] [^xy] [^xyz]  *[x] *[xy] *[xyz]  with x over ALL printable
+//	      ASCII characters and y, z over {a - / ] ^ ! \}, against the names "", every single printable character and
+//	      every two-character name over that small set; only pattern index k with k mod NSHARDS == SHARD;
+//	      IN gets "<hex pattern> <hex name>" per line, OUT one result char per pair (no separators)
 //	c17 rand N IN OUT
 //	      N generated pairs (VERIF_SEED): IN gets "<hex pattern> <hex name>" per line,
 //	      OUT gets "<match char><filter char> <klass> <patternValidUTF8 0|1>" per line
@@ -107,7 +112,9 @@ func silenceStdout() {
 
 // ---------------------------------------------------------------- generators
 
-var asciiChars = []string{"a", "b", "c", "x", "/", ".", "-", "_", "]", "^"}
+var asciiChars = []string{"a", "b", "c", "x", "/", ".", "-", "_", "]", "^",
+	// punctuation that shells / fnmatch / brace expansion treat specially but this grammar does not
+	"!", "{", "}", ",", "~", "+", "@", "(", ")", "|", "#", "$", "&", ";", "<", ">", "=", "%", ":", "'", "\"", "`", " "}
 var utf8Chars = []string{"a", "b", "/", "é", "ü", "ß", "€", "世", "😀", "�", " ", "߿", "ࠀ", "\U00010000"}
 
 // raw byte sequences that are not well-formed UTF-8
@@ -266,8 +273,8 @@ func genRandom(r *lib.Rng) (p, n, klass string) {
 		}
 		klass = "malformed-pattern"
 	case 17: // random metacharacter soup
-		p = r.Str("ab*?[]^-\\/é", 0, 10)
-		n = r.Str("ab/-é", 0, 8)
+		p = r.Str("ab*?[]^-\\/é!{},~+@()|", 0, 10)
+		n = r.Str("ab/-é!{},~+@()|", 0, 8)
 		klass = "soup"
 	default: // ill-formed bytes in the pattern (outside the property's quantifier; compared with the model only
 		// unless the literal text still consists of whole characters)
@@ -295,6 +302,15 @@ var corpus = [][3]string{
 	{"a*b", "a/x/b", "star-crosses-slash"},
 	{"*", "a/b/c", "star-crosses-slash"},
 	{"?", "/", "star-crosses-slash"},
+	{"[!a]", "b", "fnmatch-negation"},
+	{"[!a]", "a", "fnmatch-negation"},
+	{"[!a]", "!", "fnmatch-negation"},
+	{"*[!/]", "dir/", "fnmatch-negation"},
+	{"[!]", "!", "fnmatch-negation"},
+	{"[!-/]", "#", "fnmatch-negation"},
+	{"{a,b}", "a", "ascii"},
+	{"{a,b}", "{a,b}", "ascii"},
+	{"~+(a|b)@", "~+(a|b)@", "ascii"},
 	{"[a-c]", "b", "ascii"},
 	{"[^a-c]", "€", "utf8"},
 	{"[à-ü]x", "éx", "utf8"},
@@ -363,6 +379,61 @@ func main() {
 		})
 		w.Flush()
 		f.Close()
+	case "sweep":
+		shard, nsh := atoi(a[0]), atoi(a[1])
+		fin, err := os.Create(a[2])
+		if err != nil {
+			panic(err)
+		}
+		fout, err := os.Create(a[3])
+		if err != nil {
+			panic(err)
+		}
+		win, wout := bufio.NewWriterSize(fin, 1<<20), bufio.NewWriterSize(fout, 1<<20)
+		var printable []string
+		for c := 0x20; c <= 0x7e; c++ {
+			printable = append(printable, string(rune(c)))
+		}
+		small := []string{"a", "-", "/", "]", "^", "!", "\\"}
+		var names []string
+		names = append(names, "")
+		names = append(names, printable...)
+		for _, x := range small {
+			for _, y := range small {
+				names = append(names, x+y)
+			}
+		}
+		var bodies []string
+		for _, x := range printable {
+			bodies = append(bodies, x)
+			for _, y := range small {
+				bodies = append(bodies, x+y)
+				for _, z := range small {
+					bodies = append(bodies, x+y+z)
+				}
+			}
+		}
+		k := 0
+		for _, pre := range []string{"[", "[^", "*["} {
+			for _, b := range bodies {
+				if k%nsh == shard {
+					p := pre + b + "]"
+					ph := tohex(p)
+					for _, n := range names {
+						win.WriteString(ph)
+						win.WriteByte(' ')
+						win.WriteString(tohex(n))
+						win.WriteByte('\n')
+						wout.WriteByte(matchChar(p, n))
+					}
+				}
+				k++
+			}
+		}
+		win.Flush()
+		wout.Flush()
+		fin.Close()
+		fout.Close()
 	case "rand":
 		silenceStdout()
 		n := atoi(a[0])
